@@ -121,10 +121,13 @@ def case_of_path(p):
 def random_case(rnd):
     kind = rnd.choice(KINDS)
     ops, k = [], 0
+    # fitness values in quarters; every possible total weight of <= 4 children must divide L:
+    # either 0..1 in quarters or even quarters up to 1.5 (values above 1 are legal inputs)
+    pal = rnd.choice([[0, 0, 1, 2, 3, 4], [0, 0, 2, 4, 6, 6]])
     for _ in range(rnd.randrange(4, 25)):
         c = rnd.random()
         if c < 0.25 and k < 4:
-            ops.append({"e": "AddChild", "c": {"s": rnd.choice([0, 0, 1, 2, 3, 4]), "u": rnd.choice([0, 0, 1, 2, 3, 4]), "a": rnd.choice([0, 0, 1, 2, 3, 4])}})
+            ops.append({"e": "AddChild", "c": {"s": rnd.choice([0, 0, 1, 2, 3, 4]), "u": rnd.choice(pal), "a": rnd.choice(pal)}})
             k += 1
         elif c < 0.5:
             ops.append({"e": "Write", "D": rnd.choice([0, 1, 2, 3, 5, 7, 8, 12, 100])})
@@ -132,7 +135,7 @@ def random_case(rnd):
             ops.append({"e": "Read"})
         elif c < 0.92 and k:
             attr = rnd.choice("sua")
-            ops.append({"e": "SetChild", "i": rnd.randrange(1, k + 1), "attr": attr, "v": rnd.choice([0, 0, 1, 2, 3, 4])})
+            ops.append({"e": "SetChild", "i": rnd.randrange(1, k + 1), "attr": attr, "v": rnd.choice(pal if attr != "s" else [0, 0, 1, 2, 3, 4])})
         elif k:
             ops.append({"e": "Remove", "i": rnd.randrange(1, k + 1)})
             k -= 1
@@ -159,11 +162,11 @@ def judge(ctx, cases, traces, verdicts):
 def run(ctx):
     thorough = ctx.tier == "thorough"
     rnd = random.Random(ctx.seed)
-    dom = {"kinds": KINDS, "DemandVals": [0, 3, 8], "SupplyVals": [0, 1, 3], "FitVals": [0, 2, 4], "maxk": 3 if thorough else 2, "depth": 6 if thorough else 5}
+    dom = {"kinds": KINDS, "DemandVals": [0, 3, 8], "SupplyVals": [0, 1, 3], "FitVals": [0, 2, 6], "maxk": 3 if thorough else 2, "depth": 6 if thorough else 5}
     res = tlc.run("MCComp", mc_cfg(dom), module_text=mc_module("MCComp", dom), timeout=3000)
     ctx.model_must_hold("Composite model", res)
     ctx.add_model_run("Composite.tla/maxk=%d depth=%d" % (dom["maxk"], dom["depth"]), res, exhaustive=False, note="all histories to the stated depth")
-    sdom = {"kinds": KINDS, "DemandVals": [0, 1, 5, 8, 12], "SupplyVals": [0, 1, 2, 4], "FitVals": [0, 1, 2, 4], "maxk": 4, "depth": 0}
+    sdom = {"kinds": KINDS, "DemandVals": [0, 1, 5, 8, 12], "SupplyVals": [0, 1, 2, 4], "FitVals": [0, 2, 4, 6], "maxk": 4, "depth": 0}
     sdepth = 14
     paths, sres = tlc.simulate_paths("MCCompSim", mc_cfg(sdom, sim=True), mc_module("MCCompSim", sdom, sim_depth=sdepth), num=3000 if thorough else 400, depth=sdepth, seed=ctx.seed + 1)
     # TLC evaluates the constraint on every successor it generates, so it prints the chosen
@@ -185,7 +188,7 @@ def run(ctx):
     ctx.extra["rule"] = "cases = behaviours generated by TLC -simulate from Composite.tla (depth 14) + random histories; distinct non-trivial = distinct (kind, write event with >= 2 children and the observed shares)"
     ctx.assumptions = [
         "children have independent attributes (a child whose supply tracks its demand instantly is not generated)",
-        "supply in whole units 0..4, utilisation/allocation in quarters, demands <= 100, <= 4 children; tiny/huge magnitudes are not explored (DESIGN 7.1)",
+        "supply in whole units 0..4, utilisation/allocation in quarters 0..1.5, demands <= 100, <= 4 children; tiny/huge magnitudes are not explored (DESIGN 7.1)",
         "observed floats must be within 1e-9 relative of the exact rational after scaling by lcm(1..16): 'up to floating-point rounding'",
     ]
 
